@@ -2,6 +2,9 @@ import Poulpy.Lemmas.CoreOpsVal
 import Poulpy.Lemmas.CoreOpsProg
 import Poulpy.Lemmas.CoreOpsNorm
 import Poulpy.Lemmas.CoreOpsShift
+import Poulpy.Lemmas.CoreOpsShift2
+import Poulpy.Lemmas.CoreOpsGgsw
+import Poulpy.Lemmas.CoreOpsAccum
 import Poulpy.Props.C08
 
 /-!
@@ -32,7 +35,7 @@ less than one unit of the result's last limb per truncated column of balanced di
 -/
 
 namespace C02
-open Hal Core Core.Ops C02L
+open Hal Core Core.Ops C02L CoreEnc
 
 deriving instance DecidableEq for Core.GLWE
 deriving instance DecidableEq for Core.Ops.GGSW
@@ -416,34 +419,412 @@ example : ∃ r', glweNormalizeAssign 2 { base2k := 4, k := 8, n := 2, cols := [
           rcases hx with rfl | rfl <;> norm_num)
   ⟨r', h⟩
 
-/-- `glwe_lsh_assign` under the value specification of `vec_znx_lsh_assign` on the coefficient columns
-of `res` (`KernelOn`: `val(out)·2^py = val(in)·2^px + e + q·2^(px+py)`, `|e| ≤ U`) -/
-theorem lsh_assign_phase_modulo_norm {N : Nat} {res : GLWE} (hr : GWF N res) (k px py : Nat) (U : Int)
-    (hK : KernelOn N res (lshAssignCoef res.base2k k) res.base2k px py U) :
-    ∃ r', glweLshAssign N res k = .ok r' ∧ Same res r' ∧ GWF N r' ∧ r'.size = res.size ∧
+/-! ### the `lsh` family, outright (from `C08.lsh_value`, `lsh_add_value`, `lsh_sub_value`)
+
+`b = res.base2k = a.base2k`, `rs = res.size`, `as = a.size`; the operand may have any rank `≤ res.rank`
+(its missing columns count as zero columns: `glwe_lsh` zeroes them, `glwe_lsh_add/sub` leave them).
+The relation `2^(b·as)·X = 2^k·2^(b·rs)·Y + e + q·2^(b·rs+b·as)` reads `X/2^(b·rs) = Y·2^k/2^(b·as) + e/2^(b·rs+b·as) (mod 1)`;
+`|e| ≤ u·2^(b·as)` is `u` units of the result's last limb. -/
+
+/-- head-room instances used by the examples (radix `2^4`) -/
+def hr4 : NormL.HeadRoom 64 4 0 (2 ^ 62) := ⟨by norm_num, by norm_num, by norm_num, by norm_num, by norm_num⟩
+def hr4b : NormL.HeadRoom 64 4 0 (2 ^ 60) := ⟨by norm_num, by norm_num, by norm_num, by norm_num, by norm_num⟩
+
+/-- tolerance of one left shift: exact when the shifted operand fits the result -/
+def lshTol (b rs as k : Nat) : Int := if b * as ≤ b * rs + k then 0 else 2 ^ (b * as)
+
+/-- **`glwe_lsh`**: `phase(r') = phase(a)·2^k` on the torus, exactly when `b·as ≤ b·rs + k`, within
+`1 + Σ‖sᵢ‖₁` units of the last limb otherwise -/
+theorem lsh_phase {N : Nat} {res a : GLWE} (hr : GWF N res) (ha : GWF N a) (hbk : res.base2k = a.base2k)
+    (hrank : a.rank ≤ res.rank) {H : Int} (hh : NormL.HeadRoom 64 res.base2k 0 H) (hb : GBound H a) (k : Nat) :
+    ∃ r', glweLsh N res a k = .ok r' ∧ Same res r' ∧ GWF N r' ∧ r'.size = res.size ∧
       ∀ (s : List Poly) t, t < N → ∃ q e : Int,
-        valCoeff res.base2k (phase s r') t * 2 ^ py = valCoeff res.base2k (phase s res) t * 2 ^ px + e + q * 2 ^ (px + py) ∧
-        |e| ≤ (1 + snorm (min res.rank s.length) s) * U := by
-  obtain ⟨r', h1, h2, h3, h4, _, h6⟩ := selfmap_generic hr (fun ri => lshAssignCol res.base2k k ri N)
-    (lshAssignCoef res.base2k k) (fun _ => rfl) px py U hK
-  exact ⟨r', h1, h2, h3, h4, h6⟩
+        2 ^ (res.base2k * a.size) * valCoeff res.base2k (phase s r') t
+          = (2 ^ k * 2 ^ (res.base2k * res.size)) * valCoeff res.base2k (phase s a) t + e
+            + q * 2 ^ (res.base2k * res.size + res.base2k * a.size) ∧
+        |e| ≤ (1 + snorm (min res.rank s.length) s) * lshTol res.base2k res.size a.size k := by
+  unfold glweLsh
+  rw [check_true _ _ (beq_true hr.1), check_true _ _ (beq_true ha.1), check_true _ _ (beq_true hbk),
+    check_true _ _ (by simpa using hrank)]
+  obtain ⟨r', e, hs, w, sz, h1, h2⟩ := withK_zero_loop hr ha hrank (fun aa rr => lshCoef .overwrite res.base2k k aa rr)
+  refine ⟨r', e, hs, w, sz, fun s t ht => ?_⟩
+  have hU : 0 ≤ lshTol res.base2k res.size a.size k := by unfold lshTol; split <;> positivity
+  have := kernel2_phase hr ha w hs hrank _ (2 ^ (res.base2k * a.size)) 0 (2 ^ k * 2 ^ (res.base2k * res.size))
+    (2 ^ (res.base2k * res.size + res.base2k * a.size)) _ hU
+    (fun i hi t ht => by
+      have hal : (coefAt (col a i) t).length = a.size := by rw [coefAt_length, (ha.col_wf i hi).1]
+      have hrl : (coefAt (col res i) t).length = res.size := by rw [coefAt_length, (hr.col_wf i (by omega)).1]
+      have hab := coefAt_bound hh.hH0 (hb _ (col_mem i (by rw [ha.len]; omega))) t
+      have hv := C08.lsh_value hh k _ (coefAt (col res i) t) hab
+      rw [hal, hrl] at hv
+      refine ⟨hv.1, ?_⟩
+      unfold lshTol
+      split
+      · obtain ⟨q, hq⟩ := hv.2.2.2 (by assumption)
+        exact ⟨q, 0, by linear_combination hq, by simp⟩
+      · obtain ⟨q, e, hq, he⟩ := hv.2.2.1
+        exact ⟨q, e, by linear_combination hq, he⟩)
+    h1 (fun i hi hi2 t => by rw [h2 i hi hi2, valCoeff_vecZero]; ring) s t ht
+  obtain ⟨q, e, he, hb'⟩ := this
+  exact ⟨q, e, by linear_combination he, hb'⟩
 
-/-- rank 1, two limbs, radix `2^4` -/
-def exL : GLWE := { base2k := 4, k := 8, n := 2, cols := [[[3, -2], [5, 7]], [[1, 0], [-8, 6]]] }
-
-/-- left shift by 6 bits (8 bits of precision): exact, `val(out)/2^8 = val(in)·2^6/2^8 mod 1`, i.e. `px = 8`,
-`py = 2`, `U = 0`; the kernel hypothesis is checked on the four coefficient columns of this ciphertext -/
-example : ∃ r', glweLshAssign 2 exL 6 = .ok r' ∧
-    ∀ (s : List Poly) t, t < 2 → ∃ q e : Int,
-      valCoeff 4 (phase s r') t * 2 ^ 2 = valCoeff 4 (phase s exL) t * 2 ^ 8 + e + q * 2 ^ (8 + 2) ∧
-      |e| ≤ (1 + snorm (min 1 s.length) s) * 0 := by
-  obtain ⟨r', h, _, _, _, hp⟩ := lsh_assign_phase_modulo_norm (N := 2) (res := exL) (by decide) 6 8 2 0
-    (by
-      intro i hi t ht
-      have hi' : i ≤ 1 := hi
-      have : (i = 0 ∨ i = 1) ∧ (t = 0 ∨ t = 1) := by omega
-      rcases this with ⟨rfl | rfl, rfl | rfl⟩ <;> exact ⟨by decide, torus_exact_of_emod (by decide)⟩)
+/-- rank-2 result of two limbs, rank-1 operand of three limbs (smaller rank, longer): `glwe_lsh` by 5 bits -/
+example : ∃ r', glweLsh 2 exRes2 exA 5 = .ok r' ∧ ∀ (s : List Poly) t, t < 2 → ∃ q e : Int,
+    2 ^ (4 * 3) * valCoeff 4 (phase s r') t = (2 ^ 5 * 2 ^ (4 * 2)) * valCoeff 4 (phase s exA) t + e + q * 2 ^ (4 * 2 + 4 * 3) ∧
+    |e| ≤ (1 + snorm (min 2 s.length) s) * lshTol 4 2 3 5 := by
+  obtain ⟨r', h, _, _, _, hp⟩ := lsh_phase (N := 2) (res := exRes2) (a := exA) (by decide) (by decide) rfl (by decide)
+    (H := 2 ^ 62) hr4
+    (by intro c hc l hl x hx; have : |x| ≤ 8 := by revert x l c; decide
+        exact this.trans (by norm_num)) 5
   exact ⟨r', h, hp⟩
+
+/-- **`glwe_lsh_add`**: `phase(r') = phase(res) + phase(a)·2^k` within `1 + Σ‖sᵢ‖₁` units of the last limb
+(`|res limbs| ≤ 2^62`, radix at most `2^62`: the fused kernel adds balanced digits without wrapping) -/
+theorem lsh_add_phase {N : Nat} {res a : GLWE} (hr : GWF N res) (ha : GWF N a) (hbk : res.base2k = a.base2k)
+    (hrank : a.rank ≤ res.rank) {H : Int} (hh : NormL.HeadRoom 64 res.base2k 0 H) (hb62 : res.base2k ≤ 62)
+    (hb : GBound H a) (hbr : GBound (2 ^ 62) res) (k : Nat) :
+    ∃ r', glweLshAdd N res a k = .ok r' ∧ Same res r' ∧ GWF N r' ∧ r'.size = res.size ∧
+      ∀ (s : List Poly) t, t < N → ∃ q e : Int,
+        2 ^ (res.base2k * a.size) * valCoeff res.base2k (phase s r') t
+          = 2 ^ (res.base2k * a.size) * valCoeff res.base2k (phase s res) t
+            + (2 ^ k * 2 ^ (res.base2k * res.size)) * valCoeff res.base2k (phase s a) t + e
+            + q * 2 ^ (res.base2k * res.size + res.base2k * a.size) ∧
+        |e| ≤ (1 + snorm (min res.rank s.length) s) * 2 ^ (res.base2k * a.size) := by
+  unfold glweLshAdd
+  rw [check_true _ _ (beq_true hr.1), check_true _ _ (beq_true ha.1), check_true _ _ (beq_true hbk),
+    check_true _ _ (by simpa using hrank)]
+  obtain ⟨r', e, hs, w, sz, h1, h2⟩ := withK_loop hr ha hrank (fun aa rr => lshCoef .add res.base2k k aa rr)
+  refine ⟨r', e, hs, w, sz, fun s t ht => ?_⟩
+  exact kernel2_phase hr ha w hs hrank _ (2 ^ (res.base2k * a.size)) (2 ^ (res.base2k * a.size))
+    (2 ^ k * 2 ^ (res.base2k * res.size)) (2 ^ (res.base2k * res.size + res.base2k * a.size)) _ (by positivity)
+    (fun i hi t ht => by
+      have hal : (coefAt (col a i) t).length = a.size := by rw [coefAt_length, (ha.col_wf i hi).1]
+      have hrl : (coefAt (col res i) t).length = res.size := by rw [coefAt_length, (hr.col_wf i (by omega)).1]
+      have hab := coefAt_bound hh.hH0 (hb _ (col_mem i (by rw [ha.len]; omega))) t
+      have hrb := coefAt_bound (by positivity) (hbr _ (col_mem i (by rw [hr.len]; omega))) t
+      have hv := C08.lsh_add_value hh hb62 k _ _ hab hrb
+      rw [hal, hrl] at hv
+      have hlen : (lshCoef .add res.base2k k (coefAt (col a i) t) (coefAt (col res i) t)).length = res.size := by
+        rw [NormL.lshCoef_fused_eq .add (by decide) _ _ _ _ (fun r h => lt_of_le_of_lt (hrb r h) (by norm_num)),
+          List.length_zipWith, (C08.lsh_value hh k _ (coefAt (col res i) t) hab).1, hrl]; simp
+      obtain ⟨q, e, hq, he⟩ := hv
+      exact ⟨hlen, q, e, by linear_combination hq, he⟩)
+    h1 (fun i hi _ t => by rw [h2 i hi]) s t ht
+
+example : ∃ r', glweLshAdd 2 exRes2 exA 5 = .ok r' := by
+  obtain ⟨r', h, _⟩ := lsh_add_phase (N := 2) (res := exRes2) (a := exA) (by decide) (by decide) rfl (by decide)
+    (H := 2 ^ 60) hr4b (by decide)
+    (by intro c hc l hl x hx; have : |x| ≤ 8 := by revert x l c; decide
+        exact this.trans (by norm_num))
+    (by intro c hc l hl x hx; have : |x| ≤ 8 := by revert x l c; decide
+        exact this.trans (by norm_num)) 5
+  exact ⟨r', h⟩
+
+/-- **`glwe_lsh_sub`**: `phase(r') = phase(res) − phase(a)·2^k` within `1 + Σ‖sᵢ‖₁` units of the last limb -/
+theorem lsh_sub_phase {N : Nat} {res a : GLWE} (hr : GWF N res) (ha : GWF N a) (hbk : res.base2k = a.base2k)
+    (hrank : a.rank ≤ res.rank) {H : Int} (hh : NormL.HeadRoom 64 res.base2k 0 H) (hb62 : res.base2k ≤ 62)
+    (hb : GBound H a) (hbr : GBound (2 ^ 62) res) (k : Nat) :
+    ∃ r', glweLshSub N res a k = .ok r' ∧ Same res r' ∧ GWF N r' ∧ r'.size = res.size ∧
+      ∀ (s : List Poly) t, t < N → ∃ q e : Int,
+        2 ^ (res.base2k * a.size) * valCoeff res.base2k (phase s r') t
+          = 2 ^ (res.base2k * a.size) * valCoeff res.base2k (phase s res) t
+            + (-(2 ^ k * 2 ^ (res.base2k * res.size))) * valCoeff res.base2k (phase s a) t + e
+            + q * 2 ^ (res.base2k * res.size + res.base2k * a.size) ∧
+        |e| ≤ (1 + snorm (min res.rank s.length) s) * 2 ^ (res.base2k * a.size) := by
+  unfold glweLshSub
+  rw [check_true _ _ (beq_true hr.1), check_true _ _ (beq_true ha.1), check_true _ _ (beq_true hbk),
+    check_true _ _ (by simpa using hrank)]
+  obtain ⟨r', e, hs, w, sz, h1, h2⟩ := withK_loop hr ha hrank (fun aa rr => lshCoef .sub res.base2k k aa rr)
+  refine ⟨r', e, hs, w, sz, fun s t ht => ?_⟩
+  exact kernel2_phase hr ha w hs hrank _ (2 ^ (res.base2k * a.size)) (2 ^ (res.base2k * a.size))
+    (-(2 ^ k * 2 ^ (res.base2k * res.size))) (2 ^ (res.base2k * res.size + res.base2k * a.size)) _ (by positivity)
+    (fun i hi t ht => by
+      have hal : (coefAt (col a i) t).length = a.size := by rw [coefAt_length, (ha.col_wf i hi).1]
+      have hrl : (coefAt (col res i) t).length = res.size := by rw [coefAt_length, (hr.col_wf i (by omega)).1]
+      have hab := coefAt_bound hh.hH0 (hb _ (col_mem i (by rw [ha.len]; omega))) t
+      have hrb := coefAt_bound (by positivity) (hbr _ (col_mem i (by rw [hr.len]; omega))) t
+      have hv := C08.lsh_sub_value hh hb62 k _ _ hab hrb
+      rw [hal, hrl] at hv
+      have hlen : (lshCoef .sub res.base2k k (coefAt (col a i) t) (coefAt (col res i) t)).length = res.size := by
+        rw [NormL.lshCoef_fused_eq .sub (by decide) _ _ _ _ (fun r h => lt_of_le_of_lt (hrb r h) (by norm_num)),
+          List.length_zipWith, (C08.lsh_value hh k _ (coefAt (col res i) t) hab).1, hrl]; simp
+      obtain ⟨q, e, hq, he⟩ := hv
+      exact ⟨hlen, q, e, by linear_combination hq, he⟩)
+    h1 (fun i hi _ t => by rw [h2 i hi]) s t ht
+
+example : ∃ r', glweLshSub 2 exRes2 exPt 9 = .ok r' := by
+  obtain ⟨r', h, _⟩ := lsh_sub_phase (N := 2) (res := exRes2) (a := exPt) (by decide) (by decide) rfl (by decide)
+    (H := 2 ^ 60) hr4b (by decide)
+    (by intro c hc l hl x hx; have : |x| ≤ 8 := by revert x l c; decide
+        exact this.trans (by norm_num))
+    (by intro c hc l hl x hx; have : |x| ≤ 8 := by revert x l c; decide
+        exact this.trans (by norm_num)) 9
+  exact ⟨r', h⟩
+
+/-- **`glwe_lsh_assign`**: `phase(r') = phase(res)·2^k` on the torus, exactly (the low limbs are zero-filled,
+the bits shifted out at the top are integers) -/
+theorem lsh_assign_phase {N : Nat} {res : GLWE} (hr : GWF N res) {H : Int} (hh : NormL.HeadRoom 64 res.base2k 0 H)
+    (hb : GBound H res) (k : Nat) :
+    ∃ r', glweLshAssign N res k = .ok r' ∧ Same res r' ∧ GWF N r' ∧ r'.size = res.size ∧
+      ∀ (s : List Poly) t, t < N → ∃ q : Int,
+        valCoeff res.base2k (phase s r') t * 2 ^ (res.base2k * res.size)
+          = valCoeff res.base2k (phase s res) t * 2 ^ k * 2 ^ (res.base2k * res.size)
+            + q * 2 ^ (res.base2k * res.size + res.base2k * res.size) := by
+  obtain ⟨r', h1, hs, w, sz, hcol⟩ := selfmap_cols (N := N) hr (fun ri => lshAssignCol res.base2k k ri N)
+    (lshAssignCoef res.base2k k) (fun _ => rfl)
+  refine ⟨r', h1, hs, w, sz, fun s t ht => ?_⟩
+  have := torus_phase3 w hr hr hs.rank.symm (by rw [hs.rank]) res.base2k res.base2k res.base2k
+    (2 ^ (res.base2k * res.size)) 0 (2 ^ k * 2 ^ (res.base2k * res.size)) (2 ^ (res.base2k * res.size + res.base2k * res.size)) 0
+    (fun i hi t ht => by
+      rw [hs.rank] at hi
+      have hal : (coefAt (col res i) t).length = res.size := by rw [coefAt_length, (hr.col_wf i hi).1]
+      have hab := coefAt_bound hh.hH0 (hb _ (col_mem i (by rw [hr.len]; omega))) t
+      have hv := C08.lsh_value hh k _ (coefAt (col res i) t) hab
+      rw [hal] at hv
+      obtain ⟨q, hq⟩ := hv.2.2.2 (by omega)
+      refine ⟨q, 0, ?_, by simp⟩
+      rw [hcol i hi, valCoeff_eq, valCoeff_eq, coefAt_mapCoefs _ _ _ t ht (by rw [lshAssign_eq_lsh hh k _ hab]; exact hv.1),
+        lshAssign_eq_lsh hh k _ hab]
+      linear_combination hq) s t ht
+  obtain ⟨q, e, he, hb'⟩ := this
+  have : e = 0 := by
+    have : |e| ≤ 0 := by simpa using hb'
+    exact abs_eq_zero.mp (le_antisymm this (abs_nonneg e))
+  exact ⟨q, by rw [this] at he; linear_combination he⟩
+
+example : ∃ r', glweLshAssign 2 exA 6 = .ok r' ∧ ∀ (s : List Poly) t, t < 2 → ∃ q : Int,
+    valCoeff 4 (phase s r') t * 2 ^ (4 * 3) = valCoeff 4 (phase s exA) t * 2 ^ 6 * 2 ^ (4 * 3) + q * 2 ^ (4 * 3 + 4 * 3) := by
+  obtain ⟨r', h, _, _, _, hp⟩ := lsh_assign_phase (N := 2) (res := exA) (by decide)
+    (H := 2 ^ 62) hr4
+    (by intro c hc l hl x hx; have : |x| ≤ 8 := by revert x l c; decide
+        exact this.trans (by norm_num)) 6
+  exact ⟨r', h, hp⟩
+
+/-- **`glwe_normalize`, same radix, all limb counts** (from `C08.normalize_inter_value`): the phase is
+re-expressed on `res.size` limbs, exactly when `a.size ≤ res.size`, within `1 + Σ‖sᵢ‖₁` units otherwise -/
+theorem normalize_same_radix_phase {N : Nat} {res a : GLWE} (hr : GWF N res) (ha : GWF N a) (hbk : res.base2k = a.base2k)
+    (hrank : res.rank = a.rank) {H : Int} (hh : NormL.HeadRoom 64 res.base2k 0 H) (hb : GBound H a) :
+    ∃ r', glweNormalize N res a = .ok r' ∧ Same res r' ∧ GWF N r' ∧ r'.size = res.size ∧
+      ∀ (s : List Poly) t, t < N → ∃ q e : Int,
+        2 ^ (res.base2k * a.size) * valCoeff res.base2k (phase s r') t
+          = 2 ^ (res.base2k * res.size) * valCoeff res.base2k (phase s a) t + e
+            + q * 2 ^ (res.base2k * res.size + res.base2k * a.size) ∧
+        |e| ≤ (1 + snorm (min res.rank s.length) s) * lshTol res.base2k res.size a.size 0 := by
+  obtain ⟨r', e, hs, w, sz, hcol⟩ := normalize_loop hr ha hrank
+    (fun i => mapCoefs N res.size (fun t => normalizeInterCoef 64 res.base2k res.size 0 (coefAt (col a i) t)))
+    (fun i _ => ⟨by rw [← hbk]; exact normalizeCol_same _ _ _ _, mapCoefs_length _ _ _, mapCoefs_WF _ _ _⟩)
+  refine ⟨r', e, hs, w, sz, fun s t ht => ?_⟩
+  have hU : 0 ≤ lshTol res.base2k res.size a.size 0 := by unfold lshTol; split <;> positivity
+  have := torus_phase3 w hr ha hs.rank.symm (by rw [hs.rank, hrank]) res.base2k res.base2k res.base2k
+    (2 ^ (res.base2k * a.size)) 0 (2 ^ (res.base2k * res.size)) (2 ^ (res.base2k * res.size + res.base2k * a.size))
+    (lshTol res.base2k res.size a.size 0)
+    (fun i hi t ht => by
+      rw [hs.rank] at hi
+      have hal : (coefAt (col a i) t).length = a.size := by rw [coefAt_length, (ha.col_wf i (by omega)).1]
+      have hab := coefAt_bound hh.hH0 (hb _ (col_mem i (by rw [ha.len]; omega))) t
+      have hv := C08.normalize_inter_value hh res.size 0 _ hab
+      simp only [Int.toNat_zero, pow_zero, mul_one, neg_zero, Nat.add_zero, sub_zero] at hv
+      rw [hal] at hv
+      rw [hcol i hi, valCoeff_eq, valCoeff_eq, valCoeff_eq, coefAt_mapCoefs _ _ _ t ht hv.1]
+      unfold lshTol
+      split
+      next hc =>
+        obtain ⟨q, hq⟩ := hv.2.2.2 (by exact_mod_cast (by omega : res.base2k * a.size ≤ res.base2k * res.size))
+        exact ⟨q, 0, by linear_combination hq, by simp⟩
+      next hc =>
+        obtain ⟨q, e, hq, he⟩ := hv.2.2.1
+        exact ⟨q, e, by linear_combination hq, he⟩) s t ht
+  rw [hs.rank] at this
+  obtain ⟨q, e, he, hb'⟩ := this
+  exact ⟨q, e, by linear_combination he, hb'⟩
+
+/-- three limbs into two (truncating) and one limb into two (exact), radix `2^4` -/
+example : (∃ r', glweNormalize 2 exRes exA = .ok r') ∧ (∃ r', glweNormalize 2 exRes exB = .ok r') := by
+  constructor
+  · obtain ⟨r', h, _⟩ := normalize_same_radix_phase (N := 2) (res := exRes) (a := exA) (by decide) (by decide) rfl rfl
+      (H := 2 ^ 62) hr4
+      (by intro c hc l hl x hx; have : |x| ≤ 8 := by revert x l c; decide
+          exact this.trans (by norm_num))
+    exact ⟨r', h⟩
+  · obtain ⟨r', h, _⟩ := normalize_same_radix_phase (N := 2) (res := exRes) (a := exB) (by decide) (by decide) rfl rfl
+      (H := 2 ^ 62) hr4
+      (by intro c hc l hl x hx; have : |x| ≤ 8 := by revert x l c; decide
+          exact this.trans (by norm_num))
+    exact ⟨r', h⟩
+
+/-- tolerance of a re-normalisation from `pa` to `pr` bits of precision -/
+def normTol (pr pa : Nat) : Int := if pa ≤ pr then 0 else 2 ^ pa
+
+/-- **`glwe_normalize`, any pair of radices `1..62`, all limb counts** (from `C08.normalize_value_offset0`):
+whenever the kernel returns on every column (its cross-radix loop has a fuel bound in the model; it was
+never exhausted in the corresponded cases) the operation returns `ok` and the phase is re-expressed in
+the result's radix, exactly when `ab·as ≤ rb·rs`, within `1 + Σ‖sᵢ‖₁` units of the result's last limb otherwise -/
+theorem normalize_phase {N : Nat} {res a : GLWE} (hr : GWF N res) (ha : GWF N a) (hrank : res.rank = a.rank)
+    (hrb1 : 1 ≤ res.base2k) (hrb : res.base2k ≤ 62) (hab1 : 1 ≤ a.base2k) (hab : a.base2k ≤ 62)
+    {H : Int} (hH0 : 0 ≤ H) (hH : H + 8 ≤ 2 ^ 62) (hb : GBound H a)
+    (hret : ∀ i, i ≤ res.rank → ∃ Ci, normalizeCol? res.base2k res.size 0 (col a i) a.base2k N = some Ci) :
+    ∃ r', glweNormalize N res a = .ok r' ∧ Same res r' ∧ GWF N r' ∧ r'.size = res.size ∧
+      ∀ (s : List Poly) t, t < N → ∃ q e : Int,
+        2 ^ (a.base2k * a.size) * valCoeff res.base2k (phase s r') t
+          = 2 ^ (res.base2k * res.size) * valCoeff a.base2k (phase s a) t + e
+            + q * 2 ^ (res.base2k * res.size + a.base2k * a.size) ∧
+        |e| ≤ (1 + snorm (min res.rank s.length) s) * normTol (res.base2k * res.size) (a.base2k * a.size) := by
+  let C : Nat → Col := fun i => (normalizeCol? res.base2k res.size 0 (col a i) a.base2k N).getD []
+  have hC : ∀ i, i ≤ res.rank → normalizeCol? res.base2k res.size 0 (col a i) a.base2k N = some (C i) := by
+    intro i hi
+    obtain ⟨Ci, h⟩ := hret i hi
+    simp only [C, h, Option.getD_some]
+  obtain ⟨r', e, hs, w, sz, hcol⟩ := normalize_loop hr ha hrank C (fun i hi => by
+    have h := mapCoefs?_inv _ _ _ _ (hC i hi)
+    exact ⟨hC i hi, h.1, h.2.1⟩)
+  refine ⟨r', e, hs, w, sz, fun s t ht => ?_⟩
+  have hU : 0 ≤ normTol (res.base2k * res.size) (a.base2k * a.size) := by unfold normTol; split <;> positivity
+  have := torus_phase3 w hr ha hs.rank.symm (by rw [hs.rank, hrank]) res.base2k res.base2k a.base2k
+    (2 ^ (a.base2k * a.size)) 0 (2 ^ (res.base2k * res.size)) (2 ^ (res.base2k * res.size + a.base2k * a.size))
+    (normTol (res.base2k * res.size) (a.base2k * a.size))
+    (fun i hi t ht => by
+      rw [hs.rank] at hi
+      have hal : (coefAt (col a i) t).length = a.size := by rw [coefAt_length, (ha.col_wf i (by omega)).1]
+      have hab' := coefAt_bound hH0 (hb _ (col_mem i (by rw [ha.len]; omega))) t
+      obtain ⟨o, ho, hco⟩ := (mapCoefs?_inv _ _ _ _ (hC i hi)).2.2 t ht
+      have ctx : NormL.CrossCtx 64 a.base2k res.base2k res.size 0 H (coefAt (col a i) t) :=
+        ⟨Or.inl rfl, hrb1, hrb, by omega, hab, hH0, by simpa using hH, hab'⟩
+      have hv := C08.normalize_value_offset0 ctx ho
+      rw [hal] at hv
+      rw [hcol i hi, valCoeff_eq, valCoeff_eq, valCoeff_eq, hco hv.1]
+      unfold normTol
+      split
+      next hc =>
+        obtain ⟨q, hq⟩ := hv.2.2.2 hc
+        exact ⟨q, 0, by linear_combination hq, by simp⟩
+      next hc =>
+        obtain ⟨q, e, hq, he⟩ := hv.2.2.1
+        exact ⟨q, e, by linear_combination hq, he⟩) s t ht
+  rw [hs.rank] at this
+  obtain ⟨q, e, he, hb'⟩ := this
+  exact ⟨q, e, by linear_combination he, hb'⟩
+
+/-- radix `2^2` (two limbs) into radix `2^4` (two limbs): cross radix, exact -/
+example : ∃ r', glweNormalize 2 exRes exA2 = .ok r' ∧ ∀ (s : List Poly) t, t < 2 → ∃ q e : Int,
+    2 ^ (2 * 2) * valCoeff 4 (phase s r') t = 2 ^ (4 * 2) * valCoeff 2 (phase s exA2) t + e + q * 2 ^ (4 * 2 + 2 * 2) ∧
+    |e| ≤ (1 + snorm (min 1 s.length) s) * normTol (4 * 2) (2 * 2) := by
+  obtain ⟨r', h, _, _, _, hp⟩ := normalize_phase (N := 2) (res := exRes) (a := exA2) (by decide) (by decide) rfl
+    (by decide) (by decide) (by decide) (by decide) (H := 2 ^ 60) (by norm_num) (by norm_num)
+    (by intro c hc l hl x hx; have : |x| ≤ 8 := by revert x l c; decide
+        exact this.trans (by norm_num))
+    (by intro i hi
+        have : i = 0 ∨ i = 1 := by have : i ≤ 1 := hi; omega
+        rcases this with rfl | rfl
+        · exact ⟨[[4, -7], [0, 0]], by decide +kernel⟩
+        · exact ⟨[[-3, 1], [0, 0]], by decide +kernel⟩)
+  exact ⟨r', h, hp⟩
+
+/-! ## GGSW operations (`operations/ggsw.rs`)
+
+A GGSW is `dnum` rows of `rank+1` GLWE cells; `GGWF N g`: `dnum·(rank+1)` well-formed cells of the GGSW's
+rank and radix.  Every `(row, col)` cell of the result is the GLWE operation applied to the
+corresponding cells, so the GLWE phase theorem holds cell by cell. -/
+
+instance (N : Nat) (g : GGSW) : Decidable (GGWF N g) := by unfold GGWF; infer_instance
+instance (g : GGSW) : Decidable (GGSmall g) := by unfold GGSmall; infer_instance
+
+/-- `ggsw_rotate(k, res, a)` (`res.dnum ≤ a.dnum`; the cells may have different limb counts) -/
+theorem ggsw_rotate_cells {N : Nat} (k : Int) {res a : GGSW} (hr : GGWF N res) (ha : GGWF N a) (sa : GGSmall a)
+    (hd : res.dnum ≤ a.dnum) (hds : res.dsize = a.dsize) (hrk : res.rank = a.rank) (hb : res.base2k = a.base2k) :
+    ∃ r', ggswRotate N k res a = .ok r' ∧ r'.cts.length = res.cts.length ∧ r'.dnum = res.dnum ∧ r'.rank = res.rank ∧
+      ∀ idx, idx < res.dnum * (res.rank + 1) → ∃ cr ca c',
+        res.cts[idx]? = some cr ∧ a.cts[idx]? = some ca ∧ glweRotate N k cr ca = .ok c' ∧ r'.cts[idx]? = some c' ∧
+        Same cr c' ∧ GWF N c' ∧ ∀ s, phase s c' = (fit N cr.size (phase s ca)).map (rotP k) :=
+  ggswRotate_cells k hr ha sa hd hds hrk hb
+
+/-- two GGSWs of rank 1: `res` one row of two-limb cells, `a` two rows of three-limb cells -/
+def exGr : GGSW := { base2k := 4, n := 2, rank := 1, dnum := 1, dsize := 1, cts := [exRes, exRes] }
+def exGa : GGSW := { base2k := 4, n := 2, rank := 1, dnum := 2, dsize := 1, cts := [exA, exA, exA, exA] }
+
+example : ∃ r', ggswRotate 2 (-5) exGr exGa = .ok r' ∧ ∀ idx, idx < 2 → ∃ c', r'.cts[idx]? = some c' ∧
+    ∀ s, phase s c' = (fit 2 2 (phase s exA)).map (rotP (-5)) := by
+  obtain ⟨r', h, _, _, _, hc⟩ := ggsw_rotate_cells (N := 2) (-5) (res := exGr) (a := exGa)
+    (by decide) (by decide) (by decide) (by decide) rfl rfl rfl
+  refine ⟨r', h, fun idx hi => ?_⟩
+  obtain ⟨cr, ca, c', g1, g2, _, g4, _, _, g7⟩ := hc idx hi
+  have : idx = 0 ∨ idx = 1 := by omega
+  rcases this with rfl | rfl <;> (simp [exGr, exGa] at g1 g2; subst g1 g2; exact ⟨c', g4, g7⟩)
+
+/-- `ggsw_rotate_assign(k, res)` -/
+theorem ggsw_rotate_assign_cells {N : Nat} (k : Int) {res : GGSW} (hr : GGWF N res) (sr : GGSmall res) :
+    ∃ r', ggswRotateAssign N k res = .ok r' ∧ r'.cts.length = res.cts.length ∧
+      ∀ idx, idx < res.dnum * (res.rank + 1) → ∃ cr c',
+        res.cts[idx]? = some cr ∧ glweRotateAssign N k cr = .ok c' ∧ r'.cts[idx]? = some c' ∧
+        Same cr c' ∧ GWF N c' ∧ ∀ s, phase s c' = (phase s cr).map (rotP k) :=
+  ggswRotateAssign_cells k hr sr
+
+example : ∃ r', ggswRotateAssign 2 7 exGa = .ok r' ∧ r'.cts.length = 4 := by
+  obtain ⟨r', h, hl, _⟩ := ggsw_rotate_assign_cells (N := 2) 7 (res := exGa) (by decide) (by decide)
+  exact ⟨r', h, hl⟩
+
+/-! ## scratch: "no key", but the in-place and shifting operations need a scratch arena
+
+The interpreter executes the `…S` forms: the operation behind its `scratch.available() >= …_tmp_bytes`
+assertion (`sc` = bytes available; `scratchCap sb` for `ScratchOwned::alloc(sb)`, rounded up to a
+multiple of 64).  With enough scratch the `…S` form *is* the operation, so every theorem above
+applies; with less it is an assertion failure, never a wrong result. -/
+
+/-- enough scratch: the guarded form is the operation itself -/
+theorem scratch_enough {N sc : Nat} (k : Int) (kk : Nat) (scr : Int) (res a : GLWE) (g : GGSW) :
+    (Scratch.tbGlweRotate N ≤ sc → glweRotateAssignS N sc k res = glweRotateAssign N k res ∧
+      glweMulXpMinusOneAssignS N sc k res = glweMulXpMinusOneAssign N k res ∧
+      ggswRotateAssignS N sc k g = ggswRotateAssign N k g) ∧
+    (Scratch.tbGlweShift N ≤ sc → glweRshS N sc scr kk res = glweRsh N scr kk res ∧
+      glweLshAssignS N sc res kk = glweLshAssign N res kk ∧ glweLshS N sc res a kk = glweLsh N res a kk ∧
+      glweLshAddS N sc res a kk = glweLshAdd N res a kk ∧ glweLshSubS N sc res a kk = glweLshSub N res a kk) ∧
+    (Scratch.tbGlweNormalize N ≤ sc → glweNormalizeAssignS N sc res = glweNormalizeAssign N res ∧
+      glweNormalizeS N sc res a = glweNormalize N res a) := by
+  refine ⟨fun h => ⟨?_, ?_, ?_⟩, fun h => ⟨?_, ?_, ?_, ?_, ?_⟩, fun h => ⟨?_, ?_⟩⟩
+  · simp [glweRotateAssignS, checkS, h]
+  · have h' : Scratch.oneLimbTmp N ≤ sc := h
+    unfold glweMulXpMinusOneAssignS glweMulXpMinusOneAssign
+    by_cases c : (res.n == N) = true <;> simp [check, checkS, c, h']
+  · simp [ggswRotateAssignS, checkS, h]
+  · simp [glweRshS, checkS, h]
+  · simp [glweLshAssignS, checkS, h]
+  · simp [glweLshS, checkS, h]
+  · simp [glweLshAddS, checkS, h]
+  · simp [glweLshSubS, checkS, h]
+  · simp [glweNormalizeAssignS, checkS, h]
+  · unfold glweNormalizeS glweNormalize
+    by_cases c1 : (res.n == N) = true <;> by_cases c2 : (a.n == N) = true <;> by_cases c3 : (res.rank == a.rank) = true <;>
+      simp [check, checkS, c1, c2, c3, h]
+
+/-- too little scratch is `panic "scratch"` — before any other assertion for the shifts and the in-place
+forms, after the shape assertions for `glwe_normalize` (as in the Rust) -/
+theorem scratch_too_small_panics {N sc : Nat} (k : Int) (kk : Nat) (scr : Int) (res a : GLWE) (g : GGSW) :
+    (sc < Scratch.tbGlweRotate N → glweRotateAssignS N sc k res = .panic "scratch" ∧
+      ggswRotateAssignS N sc k g = .panic "scratch" ∧
+      (res.n = N → glweMulXpMinusOneAssignS N sc k res = .panic "scratch")) ∧
+    (sc < Scratch.tbGlweShift N → glweRshS N sc scr kk res = .panic "scratch" ∧ glweLshAssignS N sc res kk = .panic "scratch" ∧
+      glweLshS N sc res a kk = .panic "scratch" ∧ glweLshAddS N sc res a kk = .panic "scratch" ∧
+      glweLshSubS N sc res a kk = .panic "scratch") ∧
+    (sc < Scratch.tbGlweNormalize N → glweNormalizeAssignS N sc res = .panic "scratch" ∧
+      (res.n = N → a.n = N → res.rank = a.rank → glweNormalizeS N sc res a = .panic "scratch")) := by
+  refine ⟨fun h => ⟨?_, ?_, fun h1 => ?_⟩, fun h => ⟨?_, ?_, ?_, ?_, ?_⟩, fun h => ⟨?_, fun h1 h2 h3 => ?_⟩⟩
+  · simp [glweRotateAssignS, checkS, Nat.not_le.mpr h]
+  · simp [ggswRotateAssignS, checkS, Nat.not_le.mpr h]
+  · have h' : ¬ Scratch.oneLimbTmp N ≤ sc := Nat.not_le.mpr h
+    simp [glweMulXpMinusOneAssignS, check, checkS, h1, h']
+  · simp [glweRshS, checkS, Nat.not_le.mpr h]
+  · simp [glweLshAssignS, checkS, Nat.not_le.mpr h]
+  · simp [glweLshS, checkS, Nat.not_le.mpr h]
+  · simp [glweLshAddS, checkS, Nat.not_le.mpr h]
+  · simp [glweLshSubS, checkS, Nat.not_le.mpr h]
+  · simp [glweNormalizeAssignS, checkS, Nat.not_le.mpr h]
+  · simp [glweNormalizeS, check, checkS, h1, h2, h3, Nat.not_le.mpr h]
+
+/-- thresholds at `N = 8`: 64, 128 and 192 bytes; an arena requested with 65 bytes holds 128 -/
+example : Scratch.tbGlweRotate 8 = 64 ∧ Scratch.tbGlweShift 8 = 128 ∧ Scratch.tbGlweNormalize 8 = 192 ∧ scratchCap 65 = 128 ∧
+    glweRshS 8 (scratchCap 64) 0 1 exA = .panic "scratch" ∧ glweRshS 2 (scratchCap 1) 0 1 exA = glweRsh 2 0 1 exA := by
+  refine ⟨by decide, by decide, by decide, by decide, ?_, ?_⟩
+  · exact ((scratch_too_small_panics (N := 8) (sc := scratchCap 64) 0 1 0 exA exA exGa).2.1 (by decide)).1
+  · exact ((scratch_enough (N := 2) (sc := scratchCap 1) 0 1 0 exA exA exGa).2.1 (by decide)).1
 
 /-! ## straight-line programs
 
@@ -465,7 +846,7 @@ theorem program_phase_hom (ops : List Op) (p p' : Pool) (hp : PoolWF p) (hs : Sm
     PoolWF p' ∧ ∀ s i, phaseAt s p' i = specRun p.N (sizeAt p) (phaseAt s p) ops i :=
   run_phase ops p p' hp hs hex h
 
-def exPool : Pool := { N := 2, scr := 0, objs := [.ct exRes2, .ct exRes, .ct exA, .ct exPt] }
+def exPool : Pool := { N := 2, scr := 0, objs := [.ct exRes2, .ct exRes, .ct exA, .ct exPt], sb := 16 }
 def exProg : List Op := [.rotate (-3) 1 2, .addAssign 0 1, .subNegateAssign 0 3, .mulXpMinusOneAssign 5 0, .add 1 2 3]
 
 example : ∃ p', run exPool exProg = .ok p' ∧
@@ -477,6 +858,142 @@ example : ∃ p', run exPool exProg = .ok p' ∧
 
 example : step exPool (.rotate (-3) 1 2) ≠ .panic "assert" ∧ exactOp (.rotate (-3) 1 2) = true := by
   constructor <;> decide +kernel
+
+/-! ## programs with shifts: the accumulated error, by induction on the op list
+
+A chain of in-place operations `us : List UOp` (negate, `X^k`, `X^k − 1`, `rsh k`, `lsh k`, normalise) on
+pool entry `r`, run by the interpreter `run`.  `TRun us` is the exact ring map of the chain on
+plaintexts; `accRun P sn ⟨0,0,m₀,0⟩ us = ⟨a, b, m, U⟩` accumulates the scalings and the tolerance:
+the final phase `X` and the initial phase `Y` satisfy, on every coefficient,
+`X·2^a = (TRun us Y)·2^b + e + q·2^m` with `|e| ≤ U` — each right shift contributes `(1 + Σ‖sᵢ‖₁)` units of
+the last limb (scaled by the later operations), `X^k − 1` doubles what is already there, everything
+else contributes nothing. -/
+
+/-- one more operation of the chain -/
+theorem chain_step {N : Nat} (s : List Poly) (r : Nat) {H : Int} (u : UOp) (p p' : Pool) (c : GLWE) (acc : Acc) (Y : Poly)
+    (hN : p.N = N) (hc : p.objs[r]? = some (Obj.ct c)) (hw : GWF N c) (hh : NormL.HeadRoom 64 c.base2k 0 H)
+    (hsm : GSmall c) (hbd : GBound H c) (hY : Y.length = N)
+    (hrel : PRel N (valP c.base2k N (phase s c)) acc.a Y acc.b acc.m acc.U)
+    (hstep : step p (u.toOp r) = .ok p') :
+    ∃ c', p'.objs[r]? = some (Obj.ct c') ∧ p'.N = N ∧ GWF N c' ∧ c'.base2k = c.base2k ∧ c'.size = c.size ∧ c'.rank = c.rank ∧
+      PRel N (valP c.base2k N (phase s c')) (accStep (c.base2k * c.size) (snorm (min c.rank s.length) s) acc u).a (u.T Y)
+        (accStep (c.base2k * c.size) (snorm (min c.rank s.length) s) acc u).b
+        (accStep (c.base2k * c.size) (snorm (min c.rank s.length) s) acc u).m
+        (accStep (c.base2k * c.size) (snorm (min c.rank s.length) s) acc u).U := by
+  have hX : (valP c.base2k N (phase s c)).length = N := by simp
+  have hlim : LimbsN N (phase s c) := (phase_wf hw s).2
+  subst hN
+  cases u with
+  | neg =>
+    obtain ⟨res, x, g1, h4, rfl⟩ := un_inv hstep
+    rw [hc] at g1; cases g1
+    obtain ⟨r', e, sm, w, sz, ph⟩ := negateAssign_ok hw hsm
+    rw [h4] at e; cases e
+    refine ⟨x, put_same _ _ _ _ hc, rfl, w, sm.1, sz, sm.rank, ?_⟩
+    rw [ph s, valP_map (linT_neg _) _ _ hlim]
+    exact hrel.neg
+  | rot k =>
+    obtain ⟨res, x, g1, h4, rfl⟩ := un_inv hstep
+    rw [hc] at g1; cases g1
+    unfold glweRotateAssignS at h4
+    obtain ⟨_, h4⟩ := checkS_ok h4
+    obtain ⟨r', e, sm, w, sz, ph⟩ := rotateAssign_ok k hw hsm
+    rw [h4] at e; cases e
+    refine ⟨x, put_same _ _ _ _ hc, rfl, w, sm.1, sz, sm.rank, ?_⟩
+    rw [ph s, valP_map (linT_rot _ k) _ _ hlim]
+    exact hrel.rot k hX hY
+  | mxp k =>
+    obtain ⟨res, x, g1, h4, rfl⟩ := un_inv hstep
+    rw [hc] at g1; cases g1
+    unfold glweMulXpMinusOneAssignS at h4
+    obtain ⟨_, h4⟩ := check_ok h4
+    obtain ⟨_, h4⟩ := checkS_ok h4
+    obtain ⟨r', e, sm, w, sz, ph⟩ := mulXpMinusOneAssign_ok k hw hsm
+    rw [h4] at e; cases e
+    refine ⟨x, put_same _ _ _ _ hc, rfl, w, sm.1, sz, sm.rank, ?_⟩
+    rw [ph s, valP_map (linT_mxp _ k) _ _ hlim]
+    exact hrel.mxp k hX hY
+  | rsh k =>
+    obtain ⟨res, x, g1, h4, rfl⟩ := un_inv hstep
+    rw [hc] at g1; cases g1
+    unfold glweRshS at h4
+    obtain ⟨_, h4⟩ := checkS_ok h4
+    obtain ⟨r', e, sm, w, sz, _, ph⟩ := rsh_phase hw hh hbd p.scr k
+    rw [h4] at e; cases e
+    refine ⟨x, put_same _ _ _ _ hc, rfl, w, sm.1, sz, sm.rank, ?_⟩
+    exact (PRel_of_val c.base2k _ _ _ _ _ _ (ph s)).trans hrel
+  | lsh k =>
+    obtain ⟨res, x, g1, h4, rfl⟩ := un_inv hstep
+    rw [hc] at g1; cases g1
+    unfold glweLshAssignS at h4
+    obtain ⟨_, h4⟩ := checkS_ok h4
+    obtain ⟨r', e, sm, w, sz, ph⟩ := lsh_assign_phase hw hh hbd k
+    rw [h4] at e; cases e
+    refine ⟨x, put_same _ _ _ _ hc, rfl, w, sm.1, sz, sm.rank, ?_⟩
+    refine (PRel_of_val c.base2k _ _ (c.base2k * c.size) (k + c.base2k * c.size) (c.base2k * c.size + c.base2k * c.size) 0
+      (fun t ht => ?_)).trans hrel
+    obtain ⟨q, hq⟩ := ph s t ht
+    exact ⟨q, 0, by rw [pow_add]; linear_combination hq, by simp⟩
+  | norm =>
+    obtain ⟨res, x, g1, h4, rfl⟩ := un_inv hstep
+    rw [hc] at g1; cases g1
+    unfold glweNormalizeAssignS at h4
+    obtain ⟨_, h4⟩ := checkS_ok h4
+    obtain ⟨r', e, sm, w, sz, ph⟩ := normalize_assign_phase hw hh hbd
+    rw [h4] at e; cases e
+    refine ⟨x, put_same _ _ _ _ hc, rfl, w, sm.1, sz, sm.rank, ?_⟩
+    refine (PRel_of_val c.base2k _ _ (c.base2k * c.size) (c.base2k * c.size) (c.base2k * c.size + c.base2k * c.size) 0
+      (fun t ht => ?_)).trans hrel
+    obtain ⟨q, hq⟩ := ph s t ht
+    exact ⟨q, 0, by linear_combination hq, by simp⟩
+
+/-- **accumulated error of a program**, by induction on the op list -/
+theorem program_accumulated_error {N : Nat} (s : List Poly) (r : Nat) {H : Int} :
+    ∀ (us : List UOp) (p p' : Pool) (c : GLWE) (acc : Acc) (Y : Poly),
+    p.N = N → p.objs[r]? = some (Obj.ct c) → GWF N c → NormL.HeadRoom 64 c.base2k 0 H → Y.length = N →
+    PRel N (valP c.base2k N (phase s c)) acc.a Y acc.b acc.m acc.U →
+    HRun H r p (us.map (UOp.toOp r)) →
+    run p (us.map (UOp.toOp r)) = .ok p' →
+    ∃ c', p'.objs[r]? = some (Obj.ct c') ∧ GWF N c' ∧ c'.size = c.size ∧ c'.rank = c.rank ∧
+      PRel N (valP c.base2k N (phase s c')) (accRun (c.base2k * c.size) (snorm (min c.rank s.length) s) acc us).a (TRun us Y)
+        (accRun (c.base2k * c.size) (snorm (min c.rank s.length) s) acc us).b
+        (accRun (c.base2k * c.size) (snorm (min c.rank s.length) s) acc us).m
+        (accRun (c.base2k * c.size) (snorm (min c.rank s.length) s) acc us).U := by
+  intro us
+  induction us with
+  | nil =>
+    intro p p' c acc Y _ hc hw _ _ hrel _ hrun
+    cases hrun
+    exact ⟨c, hc, hw, rfl, rfl, hrel⟩
+  | cons u rest ih =>
+    intro p p' c acc Y hN hc hw hh hY hrel hhr hrun
+    obtain ⟨p1, h1, h2⟩ := bind_ok hrun
+    obtain ⟨hsb, hnext⟩ := hhr
+    obtain ⟨c1, g1, gN, w1, b1, z1, k1, rel1⟩ := chain_step s r u p p1 c acc Y hN hc hw hh (hsb c hc).1 (hsb c hc).2 hY hrel h1
+    have hh1 : NormL.HeadRoom 64 c1.base2k 0 H := by rw [b1]; exact hh
+    obtain ⟨c', g', w', z', k', rel'⟩ := ih p1 p' c1 _ (u.T Y) gN g1 w1 hh1 (T_length u Y hY)
+      (by rw [b1]; exact rel1) (hnext p1 h1) h2
+    refine ⟨c', g', w', z'.trans z1, k'.trans k1, ?_⟩
+    rw [b1, z1, k1] at rel'
+    exact rel'
+
+/-- radix `2^4`, one limb, rank 1: negate, shift right by 3 bits, multiply by `X^5 − 1`, shift right by 1, normalise -/
+def exChain : List UOp := [.neg, .rsh 3, .mxp 5, .rsh 1, .norm]
+def exChainPool : Pool := { N := 2, scr := 7, objs := [.ct exB], sb := 48 }
+
+example : ∃ p', run exChainPool (exChain.map (UOp.toOp 0)) = .ok p' ∧ ∃ c', p'.objs[0]? = some (Obj.ct c') ∧
+    ∀ s : List Poly,
+      PRel 2 (valP 4 2 (phase s c')) (accRun 4 (snorm (min 1 s.length) s) ⟨0, 0, 8, 0⟩ exChain).a (TRun exChain (valP 4 2 (phase s exB)))
+        (accRun 4 (snorm (min 1 s.length) s) ⟨0, 0, 8, 0⟩ exChain).b (accRun 4 (snorm (min 1 s.length) s) ⟨0, 0, 8, 0⟩ exChain).m
+        (accRun 4 (snorm (min 1 s.length) s) ⟨0, 0, 8, 0⟩ exChain).U := by
+  obtain ⟨p', hp'⟩ : ∃ p', run exChainPool (exChain.map (UOp.toOp 0)) = .ok p' := exists_of_isOk (by decide +kernel)
+  have key := fun s => program_accumulated_error (N := 2) s 0 (H := 2 ^ 60) exChain exChainPool p' exB ⟨0, 0, 8, 0⟩
+    (valP 4 2 (phase s exB)) rfl rfl (by decide) hr4b (by simp) (PRel.refl _ _ _) (hrun_of_B _ _ _ _ (by decide +kernel)) hp'
+  obtain ⟨c', g, _, _, _, _⟩ := key []
+  refine ⟨p', hp', c', g, fun s => ?_⟩
+  obtain ⟨c'', g'', _, _, _, rel⟩ := key s
+  rw [g] at g''; cases g''
+  exact rel
 
 /-! ## operands of different radices are rejected
 
